@@ -447,8 +447,14 @@ where
                     let m = ctx.model.borrow();
                     (m.resolve(left), m.resolve(right))
                 };
+                // the two operands are spelled the same way every other time
+                let k0 = ctx.lc_count.get();
                 let ll = ctx.real_lc(&lt);
+                if k0 % 2 == 0 {
+                    ctx.lc_count.set(k0);
+                }
                 let rl = ctx.real_lc(&rt);
+                ctx.lc_count.set(k0 + 2);
                 let exp = ctx.model.borrow_mut().mul(lt, rt);
                 let (a, b, c) = cs.multiply(ll, rl);
                 ctx.record("multiply", &[a, b, c], &[exp.0, exp.1, exp.2], cs.multipliers_len());
